@@ -229,6 +229,7 @@ def h_rules(a, inst):
     return True
 
 
+EXTRA_MODULES = ["harness.C18gt"]  # time windows on a real (gated) timer thread
 ENCODED = ["reactivex/operators/_window.py", "reactivex/operators/_windowwithcount.py", "reactivex/operators/_windowwithtime.py",
            "reactivex/operators/_windowwithtimeorcount.py", "reactivex/operators/_buffer.py", "reactivex/operators/_bufferwithtime.py",
            "reactivex/operators/_bufferwithtimeorcount.py", "reactivex/operators/_groupjoin.py"]
